@@ -40,7 +40,7 @@ BUDGET_S = {"quick": 200, "thorough": 2400}
 
 def cases(seed, tier):
     rng = random.Random(f"C12:{seed}")
-    n = 2500 if tier == "quick" else 120000
+    n = 5000 if tier == "quick" else 120000
     return [{"seed": rng.randrange(1 << 40), "n": rng.randint(1, 8), "ops": rng.randint(2, 12)} for _ in range(n)]
 
 
